@@ -58,7 +58,7 @@ package keys_and_cert
 //@ contract ReadKeysAndCert(data []byte) (k *KeysAndCert, remainder []byte, err error)
 //@   ensures @C08 fresh(k.Padding) && fresh(k.KeyCertificate.SpkType) && fresh(k.KeyCertificate.CpkType) && fresh(certificate.CertPayload(&k.KeyCertificate.Certificate)) && fresh(certificate.CertKind(&k.KeyCertificate.Certificate)) && fresh(certificate.CertLenBytes(&k.KeyCertificate.Certificate))
 //@   ensures @C08 fresh(k.ReceivingPublic.Bytes()) && fresh(k.SigningPublic.Bytes())
-//@   ensures disjoint(k.Padding, certificate.CertPayload(&k.KeyCertificate.Certificate), certificate.CertKind(&k.KeyCertificate.Certificate), certificate.CertLenBytes(&k.KeyCertificate.Certificate), k.ReceivingPublic.Bytes(), k.SigningPublic.Bytes())
+//@   ensures @C18 disjoint(k.Padding, certificate.CertPayload(&k.KeyCertificate.Certificate), certificate.CertKind(&k.KeyCertificate.Certificate), certificate.CertLenBytes(&k.KeyCertificate.Certificate), k.ReceivingPublic.Bytes(), k.SigningPublic.Bytes())
 //@   ensures @C01 @C02 @C03 (err == nil) == KacAccepts(data)
 //@   ensures @C03 err == nil ==> suffix(remainder, data, KacExtent(data))
 //@   ensures @C01 @C10 @C18 err == nil ==> KacInv(k)
